@@ -91,6 +91,17 @@ type Explorer struct {
 	BudgetHit    bool
 	Witnesses    []*Violation // sample feasible paths with models (for witness replay)
 	Notes        map[string]int
+	// Affine holds, per name given to zzverif.Affine, the GF(2) affine form of
+	// each bit of the observed value over the bits of the path's input
+	// variables (first path that reports it).
+	Affine map[string][]AffineRow
+}
+
+// AffineRow: bit = Const xor XOR of the listed input bits ("var[index]:bit").
+type AffineRow struct {
+	Const bool
+	Bits  []string
+	Exact bool // false if some atom is not an input variable (the form is then not a function of the inputs alone)
 }
 
 func NewExplorer(cfg *Config, harness string) *Explorer {
